@@ -6,8 +6,8 @@ import vlib
 
 QUICK = [("Selection.cfg", 400), ("SelectionTriples.cfg", 400),
          ("SelectionRatio.cfg", 400), ("SelectionRatioTriples.cfg", 400)]
-THOROUGH = QUICK + [("SelectionThorough.cfg", 900), ("SelectionTriplesThorough.cfg", 900),
-                    ("SelectionRatioThorough.cfg", 900), ("SelectionRatioTriplesThorough.cfg", 900)]
+THOROUGH = QUICK + [("SelectionThorough.cfg", 1500), ("SelectionTriplesThorough.cfg", 1500),
+                    ("SelectionRatioThorough.cfg", 1500), ("SelectionRatioTriplesThorough.cfg", 1500)]
 
 
 def run(chk, replay=None):
